@@ -527,7 +527,7 @@ def _bounded_more(ct, tier, seed):
             stop = sg.stop_index
             ya, _ = L.paraxial.marginal_ray()
             d = float(ya[stop, 0])
-            if stop > 1 and abs(d) > 1e-9:            # (stop on the first surface: Paraxial.trace is 0/0 there, see DESIGN observations)
+            if abs(d) > 1e-9:
                 npt = 5
                 f0 = (0.0, 0.7)
                 pa = analysis.PupilAberration(L, fields=[f0], wavelengths=[pw], num_points=npt)
